@@ -1,10 +1,10 @@
 SPECIFICATION Spec
 CONSTANTS
-  Patterns <- P12
-  Ids = {"i1", "i2", "i3", "i4"}
+  Patterns <- P10
+  Ids = {"i1", "i2", "i3"}
   Haystacks <- ProbeSet
-  KeepSets = {{"i1"}, {"i2", "i3"}, {"i1", "i3", "i4"}}
-  Limits = {0, 1, 2, 3}
+  KeepSets = {{"i1"}, {"i2", "i3"}}
+  Limits = {1, 2, 3}
   Levels = {0, 1, 2, 99}
   IgnoreCase = {FALSE}
   MaxOps = 4
